@@ -3,7 +3,7 @@
 # Uses a scratch worktree /tmp/seedverify (created if missing), shared target dir inside it.
 set -u
 D="$1"; ID="$2"
-W=/tmp/seedverify
+W=${SEEDVERIFY_DIR:-/tmp/seedverify}
 if [ ! -d "$W" ]; then git -C /repo worktree add -q --detach "$W" HEAD; fi
 cd "$W" && git checkout -q --detach $(git -C /repo rev-parse HEAD) && git checkout -q -- . && git clean -fdq -e target
 export CARGO_TARGET_DIR=$W/target CARGO_NET_OFFLINE=true
